@@ -103,7 +103,7 @@ def gen(run):
         # TEXT tokens carry their own leading blank; DATA items after commas
         variants = []
         n_lay = 0
-        for gaps, ndev in layouts(toks, d if len(toks) <= 14 or not quick else 1):
+        for gaps, ndev in layouts(toks, d if quick or len(toks) > 12 else 3):
             body = render(toks, gaps)
             variants.append(("layout", f"10 {body}\n100 PRINT \"L100\"\n110 PRINT \"L110\"\n"))
             n_lay += 1
